@@ -275,7 +275,7 @@ func c16Strict(r *core.Run) {
 				if neg {
 					idx = 0
 				}
-				if pa, ok := base.(*ssa.Parameter); ok && strings.Contains(strings.ToLower(pa.Name()), "strict") {
+				if pa, ok := base.(*ssa.Parameter); ok && pa.Type().String() == "bool" {
 					cut[core.Edge{From: b, Idx: idx}] = true
 					nStrict++
 				}
